@@ -460,3 +460,7 @@ package arvados
 //@   loop 1: invariant streamLen == tot && nb == len(blocks) && ferr == nil
 //@   loop 2: invariant streamLen == tot && nb == len(blocks) && ferr == nil
 //@   ensures ferr != nil ==> result == ferr
+
+// Patterns the contracts above rely on (a change of the pattern is a change of
+// behaviour of every function that uses it).
+//@ lemma signedLocatorPattern property C07,C18: regexliteral(SignedLocatorRe) == `^([[:xdigit:]]{32})(\+[0-9]+)?((\+[B-Z][A-Za-z0-9@_-]*)*)(\+A([[:xdigit:]]{40})@([[:xdigit:]]{8}))((\+[B-Z][A-Za-z0-9@_-]*)*)$`
